@@ -155,3 +155,61 @@ pub open spec fn row_sems(rows: Seq<(int, CfiSem)>) -> Seq<CfiSem> {
 pub open spec fn pointer_value(p: rcfi::Pointer) -> u64 {
     match p { rcfi::Pointer::Direct(a) => a, rcfi::Pointer::Indirect(a) => a }
 }
+
+// ------------------------------------------------------------------------------------------------------------ range lists
+// DWARF 5 2.17.3 / 7.28 (.debug_rnglists) and DWARF 2-4 2.17.3 / 7.23 (.debug_ranges, where an entry is an address
+// pair when no base address is in effect and the CU base is 0, else an offset pair relative to the base).
+use crate::read::rnglists as rrng;
+use crate::write::range as wrng;
+use crate::read::dwarf::unit_address;
+
+/// the address function applied to an index-form operand: `.debug_addr[index]` of the unit, then the caller's function
+pub open spec fn conv_addrx<CA: Fn(u64) -> Option<Address>>(ca: &CA, unit: usize, index: usize, out: Address) -> bool {
+    unit_address(unit, index) matches Ok(a) && conv_addr(ca, a, out)
+}
+
+/// one raw entry `e`, read while `hb` ("a base address is in effect") holds, denotes the same range as `out`
+pub open spec fn range_entry_rel<CA: Fn(u64) -> Option<Address>>(ca: &CA, unit: usize, e: rrng::RawRngListEntry<usize>, hb: bool, out: wrng::Range) -> bool {
+    match e {
+        // offsets are relative to the base in effect and are NOT addresses: they must be carried over unchanged
+        rrng::RawRngListEntry::AddressOrOffsetPair { begin, end } => if hb { out == (wrng::Range::OffsetPair { begin, end }) }
+            else { out matches wrng::Range::StartEnd { begin: b, end: e2 } && conv_addr(ca, begin, b) && conv_addr(ca, end, e2) },
+        rrng::RawRngListEntry::BaseAddress { addr } => out matches wrng::Range::BaseAddress { address } && conv_addr(ca, addr, address),
+        rrng::RawRngListEntry::BaseAddressx { addr } => out matches wrng::Range::BaseAddress { address } && conv_addrx(ca, unit, addr.0, address),
+        rrng::RawRngListEntry::StartxEndx { begin, end } => out matches wrng::Range::StartEnd { begin: b, end: e2 } && conv_addrx(ca, unit, begin.0, b) && conv_addrx(ca, unit, end.0, e2),
+        rrng::RawRngListEntry::StartxLength { begin, length } => out matches wrng::Range::StartLength { begin: b, length: l } && conv_addrx(ca, unit, begin.0, b) && l == length,
+        rrng::RawRngListEntry::OffsetPair { begin, end } => out == (wrng::Range::OffsetPair { begin, end }),
+        rrng::RawRngListEntry::StartEnd { begin, end } => out matches wrng::Range::StartEnd { begin: b, end: e2 } && conv_addr(ca, begin, b) && conv_addr(ca, end, e2),
+        rrng::RawRngListEntry::StartLength { begin, length } => out matches wrng::Range::StartLength { begin: b, length: l } && conv_addr(ca, begin, b) && l == length,
+    }
+}
+
+/// "a base address is in effect" after the entries `src` (initially: the CU's low_pc is non-zero)
+pub open spec fn rng_hb(src: Seq<rrng::RawRngListEntry<usize>>, hb0: bool) -> bool
+    decreases src.len()
+{
+    if src.len() == 0 { hb0 } else { rng_hb(src.drop_last(), hb0) || src.last() is BaseAddress || src.last() is BaseAddressx }
+}
+
+/// a range that covers no address (dropping it does not change the meaning of the list)
+pub open spec fn range_is_empty(r: wrng::Range) -> bool {
+    match r {
+        wrng::Range::StartLength { begin, length } => length == 0,
+        wrng::Range::StartEnd { begin, end } => begin == end,
+        wrng::Range::OffsetPair { begin, end } => begin == end,
+        wrng::Range::BaseAddress { address } => false,
+    }
+}
+
+/// the written list `out` is the raw list `src`, entry by entry and in order, except that empty ranges may be left out
+pub open spec fn rng_list_rel<CA: Fn(u64) -> Option<Address>>(ca: &CA, unit: usize, src: Seq<rrng::RawRngListEntry<usize>>, hb0: bool, out: Seq<wrng::Range>) -> bool
+    decreases src.len()
+{
+    if src.len() == 0 { out.len() == 0 } else {
+        let pre = src.drop_last();
+        let e = src.last();
+        let hb = rng_hb(pre, hb0);
+        (out.len() > 0 && !range_is_empty(out.last()) && range_entry_rel(ca, unit, e, hb, out.last()) && rng_list_rel(ca, unit, pre, hb0, out.drop_last()))
+        || ((exists|r: wrng::Range| #[trigger] range_entry_rel(ca, unit, e, hb, r) && range_is_empty(r)) && rng_list_rel(ca, unit, pre, hb0, out))
+    }
+}
